@@ -703,7 +703,8 @@ Proof. intros e id r r' H. exact (evolves_chg e id r r r' (evolves_refl e id r) 
 Lemma sstep_frame : forall st e id r', NoDup (map q_id (s_reqs st)) ->
   (forall i k d n, e = SSend i k d n -> rget i (s_reqs st) = None) ->
   rget id (s_reqs (fst (sstep st e))) = Some r' ->
-  (rget id (s_reqs st) = None /\ (exists k d n, e = SSend id k d n) /\ q_confirmed r' = None /\ q_stage r' <> RConfirm)
+  (rget id (s_reqs st) = None /\ (exists n, e = SSend id (q_kind r') (q_dst r') n) /\ q_confirmed r' = None /\
+   q_stage r' <> RConfirm)
   \/ exists r, rget id (s_reqs st) = Some r /\ evolves e id r r'.
 Proof.
   intros st e id r' Hnd Hfresh H.
@@ -717,8 +718,9 @@ Proof.
     + cbn [fst s_reqs] in H. right. exact (Hsame r' H (chg_refl r')).
     + apply want_lock_rget in H. unfold set_reqs in H. cbn [q_id s_seq s_reqs s_lock s_lockq] in H.
       destruct H as [[E Hc]|[E H]].
-      * left. subst id. split; [exact Hnone|]. split; [exists k, dst, nsetup; reflexivity|].
-        destruct Hc as [C1 C2]. rewrite C1. cbn [q_confirmed q_stage with_stage]. split; [reflexivity|].
+      * left. subst id. split; [exact Hnone|].
+        destruct Hc as [C1 C2]. rewrite C1. cbn [q_kind q_dst q_confirmed q_stage with_stage].
+        split; [exists nsetup; reflexivity|]. split; [reflexivity|].
         intros Hs. cbn [q_stage] in C2. rewrite Hs in C2. destruct C2 as [C2|[C2|C2]]; discriminate.
       * right. match type of H with rget id (_ ++ [?x]) = _ => rewrite <- (rset_notin x) in H by exact Hnone;
           rewrite rget_rset_other in H by exact E end.
@@ -845,7 +847,7 @@ Proof.
     split; [apply sstep_inv; assumption|].
     intros id H. rewrite send_ids_app. apply in_or_app.
     destruct (rget id (s_reqs (fst (sstep (sfinal es) e)))) as [r'|] eqn:E; [|exfalso; apply H; reflexivity].
-    destruct (sstep_frame _ _ _ _ (proj1 (proj1 HI)) Hfresh E) as [(_ & (k & d & n & ->) & _)|[r0 [H0 _]]].
+    destruct (sstep_frame _ _ _ _ (proj1 (proj1 HI)) Hfresh E) as [(_ & (n & ->) & _)|[r0 [H0 _]]].
     + right. cbn. left. reflexivity.
     + left. apply Hids. rewrite H0. discriminate.
 Qed.
@@ -1179,7 +1181,8 @@ Qed.
 (* how a request in progress came to be what it is after one more event *)
 Theorem request_evolution : forall es e id r', sends_unique (es ++ [e]) ->
   rget id (s_reqs (fst (sstep (sfinal es) e))) = Some r' ->
-  (rget id (s_reqs (sfinal es)) = None /\ (exists k d n, e = SSend id k d n) /\ q_confirmed r' = None /\ q_stage r' <> RConfirm)
+  (rget id (s_reqs (sfinal es)) = None /\ (exists n, e = SSend id (q_kind r') (q_dst r') n) /\ q_confirmed r' = None /\
+   q_stage r' <> RConfirm)
   \/ exists r, rget id (s_reqs (sfinal es)) = Some r /\
        q_kind r' = q_kind r /\ (q_dst r', q_tag r') = (q_dst r, q_tag r) /\
        (q_confirmed r' = q_confirmed r \/
@@ -1188,4 +1191,98 @@ Theorem request_evolution : forall es e id r', sends_unique (es ++ [e]) ->
 Proof.
   intros es e id r' Hu H. destruct (reachable_step es e Hu) as [HI Hfresh].
   exact (sstep_frame _ _ _ _ (proj1 (proj1 HI)) Hfresh H).
+Qed.
+
+(* the history of a request in progress: it was created by an SSend event with its id, kind and
+   destination; a remembered confirmation was a confirmation event for its (destination, tag) after that
+   SSend; if it waits for the confirmation its enqueue was accepted after that SSend *)
+Definition hist (es : list sevent) (id : N) (r : req) : Prop :=
+  exists es1 n es2, es = es1 ++ SSend id (q_kind r) (q_dst r) n :: es2 /\
+    (forall ok, q_confirmed r = Some ok -> In (SConfirm (q_dst r) (q_tag r) ok) es2) /\
+    (q_stage r = RConfirm -> In (SReply id EnqOk) es2).
+
+Lemma hist_inv : forall es, sends_unique es ->
+  forall id r, rget id (s_reqs (sfinal es)) = Some r -> hist es id r.
+Proof.
+  induction es as [|e es IH] using rev_ind; intros Hu id r' H.
+  - discriminate.
+  - rewrite sfinal_snoc in H. destruct (reachable_step es e Hu) as [HI Hfresh].
+    destruct (sstep_frame _ _ _ _ (proj1 (proj1 HI)) Hfresh H)
+      as [(_ & (n & ->) & Hc & Hs)|[r [Hr (E1 & E2 & E3 & E4)]]].
+    + exists es, n, []. split; [reflexivity|]. split.
+      * intros ok Hok. rewrite Hc in Hok. discriminate.
+      * intros Hs'. contradiction.
+    + destruct (IH (sends_unique_prefix _ _ Hu) id r Hr) as (es1 & n & es2 & Hes & Hcf & Hst).
+      unfold dt in E2. injection E2 as Ed Et.
+      exists es1, n, (es2 ++ [e]). rewrite E1, Ed, Et. split; [|split].
+      * rewrite Hes, <- app_assoc. reflexivity.
+      * intros ok Hok. apply in_or_app. destruct E3 as [E3|[E3 [ok' [E3' ->]]]].
+        { left. apply Hcf. rewrite <- E3. exact Hok. }
+        { right. left. rewrite E3' in Hok. injection Hok as ->. reflexivity. }
+      * intros Hs'. apply in_or_app. destruct (E4 Hs') as [E|[_ ->]].
+        { left. exact (Hst E). }
+        { right. left. reflexivity. }
+Qed.
+
+Lemma In_rget_ex : forall l r, In r l -> exists r0, rget (q_id r) l = Some r0.
+Proof.
+  intros l r Hin. destruct (rget (q_id r) l) as [r0|] eqn:E; [exists r0; reflexivity|].
+  exfalso. apply rget_None_iff in E. apply E. apply in_map. exact Hin.
+Qed.
+
+(* only requests in progress complete *)
+Theorem done_only_in_progress : forall st e id o, In (XDone id o) (snd (sstep st e)) -> o <> ResDuplicateTag ->
+  exists r, rget id (s_reqs st) = Some r.
+Proof.
+  intros st e id o H Ho.
+  destruct e as [i k dst nsetup | i res | dst tag ok | i | i]; cbn [sstep] in H.
+  - exfalso. destruct (rfind_tag dst ((s_seq st + 1) mod 256) (s_reqs st)).
+    + destruct H as [H|[]]. injection H as _ <-. apply Ho. reflexivity.
+    + exact (done_in_want_lock _ _ _ _ H).
+  - destruct (rget i (s_reqs st)) as [r1|] eqn:Hg1; [|destruct H].
+    pose proof (rget_id _ _ _ Hg1) as Hid.
+    assert (Hend : forall res0, In (XDone id o) (snd (end_req st r1 res0)) -> exists r, rget id (s_reqs st) = Some r).
+    { intros res0 H0. apply done_in_end_req in H0. destruct H0 as [-> _]. exists r1. rewrite Hid. exact Hg1. }
+    destruct (q_stage r1) eqn:Hs; try (destruct H; fail).
+    + exfalso. destruct (1 <? nleft); destruct H as [H|[]]; discriminate.
+    + destruct res.
+      * destruct (q_kind r1) eqn:Hk1; try exact (Hend _ H).
+        destruct (q_confirmed r1) as [b|] eqn:Hc; [exact (Hend _ H)|].
+        exfalso. rewrite let_pair_eta in H. exact (done_in_unlock _ _ _ H).
+      * exfalso. exact (done_in_unlock _ _ _ H).
+      * exact (Hend _ H).
+  - destruct (rfind_tag dst tag (s_reqs st)) as [r1|] eqn:Hf; [|destruct H as [H|[]]; discriminate].
+    destruct (q_confirmed r1) eqn:Hc; [destruct H as [H|[]]; discriminate|].
+    destruct (q_stage r1) eqn:Hs; try (destruct H; fail).
+    apply done_in_end_req in H. cbn [q_id] in H. destruct H as [-> _].
+    apply In_rget_ex. exact (proj1 (rfind_tag_spec _ _ _ _ Hf)).
+  - destruct (rget i (s_reqs st)) as [r1|] eqn:Hg1; [|destruct H].
+    pose proof (rget_id _ _ _ Hg1) as Hid.
+    assert (Hend : forall res0, In (XDone id o) (snd (end_req st r1 res0)) -> exists r, rget id (s_reqs st) = Some r).
+    { intros res0 H0. apply done_in_end_req in H0. destruct H0 as [-> _]. exists r1. rewrite Hid. exact Hg1. }
+    destruct (q_stage r1) eqn:Hs; try (destruct H; fail); try exact (Hend _ H).
+    destruct (q_attempt r1 <? nretries); [|exact (Hend _ H)].
+    exfalso. exact (done_in_want_lock _ _ _ _ H).
+  - destruct (rget i (s_reqs st)) as [r1|] eqn:Hg1; [|destruct H].
+    apply done_in_end_req in H. destruct H as [-> _]. exists r1. rewrite (rget_id _ _ _ Hg1). exact Hg1.
+Qed.
+
+(* the informal sentence of C12 over the whole history: when a unicast is reported delivered, then since
+   its send_packet call the NCP accepted its enqueue and a confirmation for its own (destination, tag)
+   reported success *)
+Theorem ok_has_history : forall es e id, sends_unique (es ++ [e]) ->
+  In (XDone id ResOk) (snd (sstep (sfinal es) e)) ->
+  exists r, rget id (s_reqs (sfinal es)) = Some r /\
+    (q_kind r = Unicast ->
+     exists es1 n es2, es ++ [e] = es1 ++ SSend id Unicast (q_dst r) n :: es2 /\
+       In (SReply id EnqOk) es2 /\ In (SConfirm (q_dst r) (q_tag r) true) es2).
+Proof.
+  intros es e id Hu H. pose proof (sends_unique_prefix _ _ Hu) as Hu'.
+  destruct (done_only_in_progress _ _ _ _ H) as [r Hr]; [discriminate|].
+  exists r. split; [exact Hr|]. intros Hk.
+  destruct (hist_inv es Hu' id r Hr) as (es1 & n & es2 & Hes & Hcf & Hst). rewrite Hk in Hes.
+  exists es1, n, (es2 ++ [e]). split; [rewrite Hes, <- app_assoc; reflexivity|].
+  destruct (ok_needs_own_confirmation es e id Hu' H r Hr Hk) as [(-> & Hc & _)|(-> & Hs)].
+  - split; apply in_or_app; [right; left; reflexivity | left; exact (Hcf true Hc)].
+  - split; apply in_or_app; [left; exact (Hst Hs) | right; left; reflexivity].
 Qed.
